@@ -19,6 +19,9 @@ def run_job(job):
 
 
 def replay(pid, desc):
+    if desc.get("kind") == "invalid":
+        from . import invalid_calls
+        return invalid_calls.run(desc)[0]
     rec = engine_g.run_scenario(desc)
     return gprops.apply_oracles(pid, desc, rec, desc.get("seed", 0))
 
@@ -101,7 +104,13 @@ def evidence(pid, tier, seed, jobs, results, good, wall):
     fault_free = with_faults = 0
     completed = failed = 0
     int_pairs = {}
+    invalid_cases = {}
     for j, r in good:
+        if j.get("kind") == "invalid":
+            invalid_cases[r["invalid_case"]] = invalid_cases.get(r["invalid_case"], 0) + 1
+            for k, v in r["counters"].items():
+                probes[k] = probes.get(k, 0) + v
+            continue
         cells_cov.add(tuple(r["cell"]))
         if r["steps"] >= 1:
             distinct.add((tuple(r["cell"]), r["digest"]))
@@ -133,7 +142,7 @@ def evidence(pid, tier, seed, jobs, results, good, wall):
             t[0] += 1
             t[1] += 1 if r["exc"] is not None else 0
     samples = []
-    for j, r in good[:3]:
+    for j, r in [(j, r) for j, r in good if j.get("kind") != "invalid"][:3]:
         samples.append({"job": j["i"], "seed": j["seed"], "scenario": gprops.make_desc(j)})
     cov = {
         "evaluations": len(good),
@@ -162,6 +171,7 @@ def evidence(pid, tier, seed, jobs, results, good, wall):
                      "objective functions (simulator-supplied Task subclasses)"]},
     }
     if pid == "C06":
+        cov["invalid_call_cases"] = invalid_cases
         cov["integer_coded_pairs"] = {"pairs": len(int_pairs),
                                       "failing_in_all_runs": sum(1 for n, f in int_pairs.values() if n and f == n)}
     return {
